@@ -88,9 +88,12 @@ type Proc struct {
 	errAccepted int
 	WriteFaults int // writes that returned an error
 
-	Steps      int64
-	StepBudget int64
-	MaxDepthOK bool
+	Steps        int64
+	StepBudget   int64
+	loopRun      int64
+	compiling    bool
+	compileStart int64
+	MaxDepthOK   bool
 
 	Raised map[string]interface{} // event name -> the value that callback raised (panic value), for identity checks
 
@@ -107,6 +110,11 @@ func NewProc(id int) *Proc {
 
 const defaultStepBudget = 2_000_000
 const depthBudget = 100_000
+const stuckLoopBudget = 200_000
+const compileBudget = 1_000_000
+
+var loopSites = map[string]bool{"lexer.loop": true, "parser.seq": true, "parser.choice": true, "matcher.options.loop": true,
+	"matcher.opt.loop": true, "matcher.short.loop": true, "fsm.simplifySelf": true}
 
 // Emit records a callback event.
 func (p *Proc) Emit(ev string) {
@@ -231,12 +239,41 @@ func pointHook(site string) {
 			traceAdd(p.ID, site)
 		}
 	}
+	// Liveness budgets. Three of them are sound on their own, because what they bound is polynomial in
+	// the size of the input for any sensible implementation: (a) consecutive Points of frame-local loops
+	// (lexer, parser and matcher loops, the shortcut elimination loop) with nothing else in between,
+	// (b) the steps of one spec compilation, (c) the call depth. The fourth, the total number of steps,
+	// can legitimately be exceeded by the matcher's exponential backtracking and only nominates.
+	if loopSites[site] {
+		p.loopRun++
+		if p.loopRun > stuckLoopBudget {
+			panic(&budgetSentinel{"stuck-loop"})
+		}
+	} else {
+		p.loopRun = 0
+		switch site {
+		case "cmd.doInit":
+			p.compiling, p.compileStart = true, p.Steps
+		case "fsm.Parse":
+			p.compiling = false
+		}
+	}
+	if p.compiling && p.Steps-p.compileStart > compileBudget {
+		panic(&budgetSentinel{"compile"})
+	}
 	if p.Steps > p.StepBudget {
 		panic(&budgetSentinel{"steps"})
 	}
-	if p.Steps&1023 == 0 && !liftBudgets {
+	if p.Steps&1023 == 0 {
 		if runtime.Callers(depthBudget, depthScratch) > 0 {
 			panic(&budgetSentinel{"depth"})
+		}
+		if liftBudgets && p.Steps&(1<<23-1) == 0 {
+			phase := "match"
+			if p.compiling {
+				phase = "compile"
+			}
+			fmt.Fprintf(os.Stderr, "HEARTBEAT steps=%d phase=%s\n", p.Steps, phase)
 		}
 	}
 	if s := theSched; s != nil && !mapOrdered {
